@@ -211,17 +211,17 @@ NODE_BUDGET = 8
 
 
 @st.composite
-def matcher_on_text(draw, max_lines=6):
+def matcher_on_text(draw, max_lines=6, node_budget=NODE_BUDGET):
     """-> (text, TM)"""
     text = c05_text.draw_text(draw, max_lines)
-    return text, draw_tm(draw, text, 0, [NODE_BUDGET])
+    return text, draw_tm(draw, text, 0, [node_budget])
 
 
 @st.composite
-def transformer_on_text(draw, max_lines=6):
+def transformer_on_text(draw, max_lines=6, node_budget=NODE_BUDGET):
     """-> (text, TR)"""
     text = c05_text.draw_text(draw, max_lines)
-    return text, draw_tr(draw, text, 0, [NODE_BUDGET])
+    return text, draw_tr(draw, text, 0, [node_budget])
 
 
 # =================================================================================================================
@@ -459,13 +459,28 @@ def assemble(tokens, indent: str = '    ') -> str:
     return ''.join(out)
 
 
-def render_tm(node, style: int = 0, file_prefix: str = 'e'):
-    """-> (source text of the TEXT-MATCHER, files referenced: name -> text)"""
+def render_tm(node, style: int = 0, file_prefix: str = 'e', after_program: bool = False, simple: bool = False):
+    """-> (source text of the TEXT-MATCHER, files referenced: name -> text)
+
+    simple: the matcher is rendered for a position that "may not contain infix operators (unless inside
+    parentheses)" (e.g. the argument of the FILE-MATCHER `contents`).
+
+    after_program: the matcher follows a PROGRAM (on the next line): a matcher that begins with -transformed-by is
+    put inside parentheses, since "-transformed-by T" on the line after a PROGRAM is the program's own
+    TRANSFORMATION-OF-OUTPUT (help syntax PROGRAM).  Done on the token list, so that a `:>` string / here-document
+    at the end of the matcher is followed by a line break before the ")"."""
     r = Renderer(style, file_prefix)
-    return assemble(r.tm(node, False)), r.files
+    toks = r.tm(node, simple)
+    if after_program and toks[0] == '-transformed-by':
+        toks = ['('] + toks + [')']
+    return assemble(toks), r.files
 
 
-def render_tr(node, style: int = 0, file_prefix: str = 'e'):
-    """-> (source text of the TEXT-TRANSFORMER in a "no infix operators" position, files)"""
+def render_tr(node, style: int = 0, file_prefix: str = 'e', simple: bool = True):
+    """-> (source text of the TEXT-TRANSFORMER, files); simple (default): for a "no infix operators" position;
+    not simple: a full expression (the value of `def text-transformer`)"""
     r = Renderer(style, file_prefix)
-    return assemble(r.tr(node, True)), r.files
+    if not simple and node[0] == 'seq' and 'filter-nums' in ref.tags(node):
+        # a range list runs to END-OF-LINE and a line break before `|` is permitted only inside parentheses
+        simple = True
+    return assemble(r.tr(node, simple)), r.files
